@@ -8,8 +8,10 @@ package main
 import (
 	"flag"
 	"fmt"
+	"os"
 	"runtime/debug"
 	"sync"
+	"time"
 
 	"verif/harness/mon"
 )
@@ -68,7 +70,11 @@ func main() {
 							c.Inconclusive("harness panic in job %s: %v\n%s", j.name, r, string(debug.Stack()))
 						}
 					}()
+					t0 := time.Now()
 					j.run()
+					if os.Getenv("VERIF_DEBUG") != "" {
+						fmt.Fprintf(os.Stderr, "job %s %.1fs\n", j.name, time.Since(t0).Seconds())
+					}
 				}()
 			}
 		}()
